@@ -261,6 +261,29 @@ let run_gensums fields = match fields with
     hex_of_bytes (enc_sums h sums)
   | _ -> failwith "gensums: want 2 fields"
 
+(* ---- option parser ---- *)
+let run_popt fields = match fields with
+  | [argv] ->
+    let args = if argv = "" then [] else String.split_on_char '\x1f' argv in
+    (match parse_arguments args with
+     | Inr (EBadOpt _) -> "ERR:badopt"
+     | Inr EUnwantedArg -> "ERR:unwanted"
+     | Inr ENoArg -> "ERR:noarg"
+     | Inr EBadNumber -> "ERR:badnumber"
+     | Inr (ENotImplemented _) -> "ERR:notimpl"
+     | Inr ESenderWithoutServer -> "ERR:senderwos"
+     | Inr (EExit _) -> "ERR:exit"
+     | Inr EDaemonMode -> "ERR:daemonmode"
+     | Inr EFuel -> "ERR:fuel"
+     | Inl st ->
+       let view = String.concat "" (List.map (fun b -> if b then "1" else "0") (wire_view st)) in
+       let so = String.concat "\x1e" (server_options st) in
+       let ss = String.concat "\x1e" (server_options (setf st "am_sender" (z_of_int 1))) in
+       Printf.sprintf "OK|%s|F:%s|R:%s|S:%s|SS:%s|x%s" view (String.concat "\x1e" st.o_filters)
+         (String.concat "\x1e" st.o_remaining) so ss (string_of_z (getf st "xfer_dirs")))
+  | [] -> (match parse_arguments [] with Inl _ -> "OK-empty" | Inr _ -> "ERR")
+  | _ -> failwith "popt: want 1 field"
+
 (* ---- acl ---- *)
 let acl_rule (t : string) : rule =
   match split ':' t with
@@ -292,6 +315,7 @@ let dispatch comp fields =
   | "sender" -> run_sender fields
   | "recv" -> run_recv fields
   | "mux" -> run_mux fields
+  | "popt" -> run_popt fields
   | "noop" -> "ok"
   | "decision" -> run_decision fields
   | "gensums" -> run_gensums fields
